@@ -403,7 +403,12 @@ func Replay(ad Adapter, root sdk.Context, g *Graph, opt Options) (Stats, error) 
 	owner := func(state string) int {
 		h := fnv.New64a()
 		h.Write([]byte(state))
-		return int(h.Sum64() % uint64(shards))
+		x := h.Sum64()
+		// FNV-1a's low bit is the parity of the input's low bits: mix before reducing
+		x ^= x >> 33
+		x *= 0xff51afd7ed558ccd
+		x ^= x >> 33
+		return int(x % uint64(shards))
 	}
 	need := map[string]bool{} // shallow states whose subtree contains something this shard owns
 	if shards > 1 {
